@@ -535,7 +535,7 @@ Proof.
     destruct GG as (_ & I & N & _). split; assumption.
   - (* setroot *)
     destruct (hget st hs) as [ls q] eqn:EQ. pose proof (hget_hk st hs Hb) as HQ. rewrite EQ in HQ.
-    apply pset_binv; auto. intros w1 Hr. unfold set_root in Hr.
+    apply pset_binv; auto. intros w1 Hr. unfold set_root, set_root_gen in Hr.
     destruct (bm_segs (w_dst (st_w st))) as [|s0 r0] eqn:ES; [discriminate|].
     destruct (negb _); [discriminate|].
     assert (SR : 0 <= 0 < nsegs (w_dst (st_w st))) by (unfold nsegs, zlen; rewrite ES; cbn [length]; lia).
